@@ -109,6 +109,23 @@ def check(names, combo, members):
     return problems, "\n".join(src)
 
 
+def c3_reference(lists):
+    """Textbook C3 merge (Barrett et al.; the algorithm of CPython's type.mro): repeatedly take the first head that is in no tail."""
+    seqs = [list(x) for x in lists if x]
+    out = []
+    while seqs:
+        for seq in seqs:
+            cand = seq[0]
+            if not any(cand in other[1:] for other in seqs):
+                break
+        else:
+            return None
+        out.append(cand)
+        seqs = [[x for x in seq if x != cand] if seq[0] == cand else seq for seq in seqs]
+        seqs = [seq for seq in seqs if seq]
+    return out
+
+
 def c3_contract(lists):
     """Run-time-checked contract of c3linear_merge on one input: result is a duplicate-free merge that keeps every list's order."""
     try:
@@ -116,6 +133,10 @@ def c3_contract(lists):
     except ValueError:
         return None
     probs = []
+    if all(len(set(l)) == len(l) for l in lists):
+        ref = c3_reference(lists)
+        if ref is not None and ref != res:
+            probs.append(f"c3linear_merge{lists} = {res}, the C3 merge is {ref}")
     allitems = [x for lst in lists for x in lst]
     if sorted(set(allitems)) != sorted(res) or len(set(res)) != len(res):
         probs.append(f"c3linear_merge{lists} = {res}: not a duplicate-free merge")
@@ -185,8 +206,8 @@ def sweep(n, with_members, budget_s=200):
                 bad.append({"source": src, "problems": pr[:3], "signature": "hierarchy:" + src})
                 break
     # c3linear_merge contract on raw lists
-    items = "abc"
-    lists_dom = [p for k in range(0, 3) for p in itertools.permutations(items, k)]
+    items = "abcd"
+    lists_dom = [p for k in range(0, 4) for p in itertools.permutations(items, k)]
     c3n = 0
     for ls in itertools.product(lists_dom, repeat=3):
         c3n += 1
